@@ -1,1 +1,39 @@
-fn main(){}
+// Compiles the independent C++ blend oracle into a static library.
+// Skipped under Miri (Miri cannot cross FFI; Miri workloads never call the oracle).
+use std::env;
+use std::path::PathBuf;
+use std::process::Command;
+
+fn main() {
+    println!("cargo:rerun-if-changed=oracle/aseprite_blend.cc");
+    println!("cargo:rerun-if-changed=build.rs");
+    println!("cargo:rustc-check-cfg=cfg(no_oracle)");
+    if env::var("CARGO_CFG_MIRI").is_ok() || env::var("ASEMON_NO_ORACLE").is_ok() {
+        println!("cargo:rustc-cfg=no_oracle");
+        return;
+    }
+    let out = PathBuf::from(env::var("OUT_DIR").unwrap());
+    let obj = out.join("aseprite_blend.o");
+    let lib = out.join("libaseblend.a");
+    let cxx = ["clang++", "clang++-14", "g++"]
+        .iter()
+        .find(|c| Command::new(c).arg("--version").output().is_ok())
+        .expect("no C++ compiler found");
+    let st = Command::new(cxx)
+        .args(["-O2", "-ffp-contract=off", "-fno-exceptions", "-fno-rtti", "-fPIC", "-c"])
+        .arg("oracle/aseprite_blend.cc")
+        .arg("-o")
+        .arg(&obj)
+        .status()
+        .expect("spawn c++");
+    assert!(st.success(), "oracle compile failed");
+    let _ = std::fs::remove_file(&lib);
+    let ar = ["ar", "llvm-ar", "llvm-ar-14"]
+        .iter()
+        .find(|c| Command::new(c).arg("--version").output().is_ok())
+        .expect("no ar found");
+    let st = Command::new(ar).arg("rcs").arg(&lib).arg(&obj).status().expect("spawn ar");
+    assert!(st.success(), "ar failed");
+    println!("cargo:rustc-link-search=native={}", out.display());
+    println!("cargo:rustc-link-lib=static=aseblend");
+}
